@@ -15,7 +15,8 @@ class Inner(param.Parameterized):
 
 def _params():
     return dict(a=param.Number(default=0), b=param.Number(default=4), s=param.String(default=""),
-                l=param.List(default=[]), t=param.Parameter(default=None), sub=param.Parameter(default=None))
+                l=param.List(default=[]), t=param.Parameter(default=None), sub=param.Parameter(default=None),
+                d=param.Dict(default={"k": 1, "m": 2}))
 
 
 class OuterKw(param.Parameterized):
@@ -56,6 +57,8 @@ def value(p, tok):
         return {"empty": [], "nested": [1, [2, "a"]], "onetuple": [(3,)], "withinf": [float("inf"), -1]}[tok]
     if p == "t":
         return {"none": None, "pair": (1, 2), "one": (5,)}[tok]
+    if p == "d":
+        return {"default": {"k": 1, "m": 2}, "empty": {}, "subset": {"k": 1}, "changed": {"k": 1, "m": 3}, "superset": {"k": 1, "m": 2, "z": 0}}[tok]
     if p == "sub":
         return {"none": None, "inner": Inner(), "innerchanged": Inner(v=-3, w="z'")}[tok]
     raise ValueError(p)
@@ -68,19 +71,41 @@ def same(x, y):
         return True
     if isinstance(x, (list, tuple)) and type(x) is type(y):
         return len(x) == len(y) and all(same(i, j) for i, j in zip(x, y))
+    if isinstance(x, dict) and isinstance(y, dict):
+        return list(x) == list(y) and all(same(x[k], y[k]) for k in x)
     return type(x) is type(y) and x == y or (isinstance(x, (int, float)) and isinstance(y, (int, float)) and not isinstance(x, bool) and x == y)
 
 
 def replay(st, opts):
+    import sys
+    mod = sys.modules[__name__]
+    base = CLS[st["shape"]]
+    try:
+        return _replay(st, opts, mod)
+    finally:
+        setattr(mod, base.__name__, base)
+
+
+def _replay(st, opts, mod):
     shape, val, nm = st["shape"], st["val"], st["name"]
-    cls = CLS[shape]
+    # a fresh three-level hierarchy per case: the class-level default of `a` may be reassigned on the
+    # intermediate class after the leaf class was already in use
+    base = CLS[shape]
+    mid = type("Mid" + base.__name__, (base,), {})
+    cls = type(base.__name__, (mid,), {})
+    setattr(mod, base.__name__, cls)       # script_repr names the class through its module
+    defaults = {"a": st["defa"], "b": "4", "s": "empty", "l": "empty", "t": "none", "sub": "none", "d": "default"}
+    if st["defa"] != "0":
+        first = cls(**({} if shape == "kw" else {"a": 1, "b": 2}))
+        first.param.pprint()
+        mid.a = value("a", st["defa"])
     kw = {p: value(p, val[p]) for p in val}
     if nm == "explicit":
         kw["name"] = "my name"
     elif nm == "autolike":
         kw["name"] = cls.__name__ + "7b"        # starts like an auto-generated name but is not one
     if shape == "kw":
-        obj = cls(**{k: v for k, v in kw.items() if k == "name" or val.get(k) != {"a": "0", "b": "4", "s": "empty", "l": "empty", "t": "none", "sub": "none"}[k]})
+        obj = cls(**{k: v for k, v in kw.items() if k == "name" or val.get(k) != defaults[k]})
     elif shape == "pos2":
         obj = cls(kw.pop("a"), kw.pop("b"), **kw)
     elif shape == "poskw":
@@ -98,7 +123,7 @@ def replay(st, opts):
         if how == "pprint":
             text = obj.param.pprint()
             code = text
-            ns = {c.__name__: c for c in list(CLS.values()) + [Inner]}
+            ns = {c.__name__: c for c in [cls, Inner]}
             ns["param"] = param
         else:
             text = param.script_repr(obj)
